@@ -212,10 +212,10 @@ def run(tier, seed, replay=None):
         err_lines, err_meta = [], []
         for sel in (["complexity", "deps"], ["deadcode", "deps"], ["deps"], ["complexity"], ["clones", "deps"], ["complexity", "deadcode", "deps"],
                     ["clones"], ["deadcode"], None):
-            for extra in (["--config", os.path.join(root, "missing.toml")], ["--config", os.path.join(root, "missing.toml"), "--max-cycles", "1"],
-                          ["--config", os.path.join(root, "missing.toml"), "--allow-circular-deps", "--allow-dead-code"]):
+            for extra in ([], ["--max-cycles", "1"], ["--allow-circular-deps", "--allow-dead-code"]):
                 args = (["check", "--skip-clones"] if sel is None else ["check", "--select", ",".join(sel)]) + extra
-                rc, out, err = C.pyscn(args + ["proj"], cwd=root)
+                # a target that does not exist: every selected analysis fails to run; WHICH ones count is the gate's business
+                rc, out, err = C.pyscn(args + ["no_such_dir"], cwd=root)
                 nruns += 1
                 failed = {"complexity": "Complexity analysis failed" in err, "deadcode": "Dead code analysis failed" in err,
                           "clones": "Clone detection failed" in err, "deps": "Circular dependency check failed" in err}
@@ -236,7 +236,14 @@ def run(tier, seed, replay=None):
                 diffs += 1
                 res.violation("pyscn %s: exit %d although it reported %s as failed; the gate model says %d" %
                               (" ".join(args), rc, [k for k, v in failed.items() if v], exp_rc),
-                              {"project": "1 function, 1 cycle; --config points to a missing file", "flags": args, "exit": rc, "model_line": line, "stderr": err[-600:]})
+                              {"project": "the target directory does not exist", "flags": args, "exit": rc, "model_line": line, "stderr": err[-600:]})
+        # an explicit --config that does not exist: the command fails before any analysis (C19_config_error)
+        for sel in (["complexity"], ["clones"], ["deps"], None):
+            args = (["check"] if sel is None else ["check", "--select", ",".join(sel)]) + ["--config", os.path.join(root, "missing.toml"), "proj"]
+            rc, out, err = C.pyscn(args, cwd=root)
+            nruns += 1
+            if rc != 1:
+                res.violation("pyscn %s: exit %d although the configuration file does not exist" % (" ".join(args), rc), {"flags": args, "exit": rc, "stderr": err[-400:]})
         # the excluded point of C19_gate: a negative --max-cycles
         root = os.path.join(tmp, "neg")
         write_project(os.path.join(root, "proj"), [2], [], 0)
